@@ -564,7 +564,7 @@ func (n *brNode) apply(a *brAct) (obs brObs, err error) {
 }
 
 // the model's projection of the real state
-func (n *brNode) observe(prev *brState, obs *brObs) brState {
+func (n *brNode) observe(prev *brState, obs *brObs, a *brAct) brState {
 	s := brState{OutF: obs.fwd, OutA: obs.asked, Rstat: "none", Rsp: brRsp{K: "none"}}
 	for _, k := range []string{"a", "b", "x"} {
 		if n.sm.blkCache.Contains(n.blockID(k)) {
@@ -587,8 +587,8 @@ func (n *brNode) observe(prev *brState, obs *brObs) brState {
 		}
 		// the answer to the syncer is sticky in the model
 		s.Rsp = prev.Rsp
-		if s.Rsp.K == "" {
-			s.Rsp.K = "none"
+		if s.Rsp.K == "" || a.Name == "StartGet" {
+			s.Rsp = brRsp{K: "none"}
 		}
 		if obs.rsp != nil {
 			if obs.rsp.Err != nil {
@@ -607,6 +607,9 @@ func (n *brNode) observe(prev *brState, obs *brObs) brState {
 func canon(s brState) string {
 	c := append([]string{}, s.Cache...)
 	sort.Strings(c)
+	if s.Rstat != "waiting" && s.Rsp.K != "ok" { // offset and kept blocks of a dead receiver are not observable
+		s.Off, s.Got = 0, nil
+	}
 	return fmt.Sprintf("cache=%v outF=%v outA=%v req=%v off=%d got=%v rstat=%s rsp=%s%v", c, s.OutF, s.OutA, s.Req, s.Off, s.Got, s.Rstat, s.Rsp.K, s.Rsp.Blocks)
 }
 
@@ -630,7 +633,7 @@ func actForged(a *brAct) bool {
 // Returns the signature kind of the first problem ("" = none) and a description.
 func (n *brNode) step(a *brAct, src, dst *brState) (kind, text string, got brState) {
 	obs, err := n.apply(a)
-	got = n.observe(src, &obs)
+	got = n.observe(src, &obs, a)
 	if err != nil {
 		return "panic-or-error", fmt.Sprintf("%s: %v", a.Name, err), got
 	}
@@ -660,7 +663,7 @@ func (n *brNode) step(a *brAct, src, dst *brState) (kind, text string, got brSta
 			return "wrong-block-count", fmt.Sprintf("the syncer asked for %d blocks and got %d without error", len(n.req), len(obs.rsp.Blocks)), got
 		}
 	}
-	if obs.nrsp > 1 || (obs.nrsp == 1 && src.Rsp.K != "none" && src.Rsp.K != "" && a.Name == "Chunk") {
+	if obs.nrsp > 1 || (obs.nrsp == 1 && a.Name == "Chunk" && (src.Rsp.K == "ok" || src.Rsp.K == "err")) {
 		return "syncer-answered-twice", fmt.Sprintf("%s: %d answers to the syncer, previous answer %s", a.Name, obs.nrsp, src.Rsp.K), got
 	}
 	// conformance with the model
@@ -673,6 +676,14 @@ func (n *brNode) step(a *brAct, src, dst *brState) (kind, text string, got brSta
 		return k, fmt.Sprintf("%s %s from [%s]:\n  model: %s\n  code:  %s", a.Name, actString(a), canon(*src), canon(want), canon(got)), got
 	}
 	return "", "", got
+}
+
+func actsString(as []brAct) string {
+	var p []string
+	for i := range as {
+		p = append(p, as[i].Name+actString(&as[i]))
+	}
+	return fmt.Sprint(p)
 }
 
 func actString(a *brAct) string {
@@ -793,13 +804,13 @@ func TestVerifBlockRecv(t *testing.T) {
 						if len(obs.fwd) != 1 || obs.fwd[0] != *a.It {
 							violate("poisoned", "bp-notice", fam, map[string]interface{}{"scenario": sc},
 								fmt.Sprintf("scenario %s: after the forged notices %v the genuine block id(%s) = %x is NOT handed to the chain service (dropped as a duplicate: the forged notice occupied its identifier in the notice cache)",
-									sc.Name, sc.Acts[:si], a.It.Ann, n.w.id[a.It.Ann]))
+									sc.Name, actsString(sc.Acts[:si]), a.It.Ann, n.w.id[a.It.Ann]))
 						}
 					case "NewBlockNotice":
 						if len(obs.asked) != 1 || obs.asked[0] != a.ID {
 							violate("poisoned", "new-block-notice", fam, map[string]interface{}{"scenario": sc},
 								fmt.Sprintf("scenario %s: after the forged notices %v the announcement of the unknown block id(%s) = %x is ignored (the block is never requested)",
-									sc.Name, sc.Acts[:si], a.ID, n.w.id[a.ID]))
+									sc.Name, actsString(sc.Acts[:si]), a.ID, n.w.id[a.ID]))
 						}
 					case "Chunk":
 						if obs.rsp == nil || obs.rsp.Err != nil || len(obs.rsp.Blocks) != len(n.req) {
